@@ -85,6 +85,9 @@ def run(ctx) -> Result:
                            "topological order; soundness of the pruning theorems (mathematics over costs)")
     res.assumptions.append("a constraint of the schema mentions at most three elements, so agreement of the feasible set "
                            "with the weak orders on every triple extends to every universe size")
+    if not res.violations:      # the end-to-end pass adds nothing to an established violation (and may not terminate on it)
+        from . import e2e
+        e2e.check(res, ctx.proj, "C05", ctx.thorough)
     return res
 
 
